@@ -21,6 +21,7 @@ ASSUMPTIONS = [
     "out-of-bounds accesses are observed by AddressSanitizer, uninitialised result fields by a poisoned stack; neither is proved absent for untested inputs",
     "TLC enumerates piece sequences up to length 4 over all 9 token classes and up to length 5 over 4 classes; longer random inputs are judged by their first four pieces, which is all the grammar looks at",
 ]
+PRE_MAIN = ["hu_HU.UTF-8", "Hungarian_Hungary", "en_GB", "xx_GB", "English_United States.UTF-8", "nb_NO", ""]
 FALLBACK = {"code": "en", "names": ["English"], "country": "United Kingdom", "ccode": "GB"}
 
 
@@ -145,6 +146,15 @@ def check(pid, tier, seed):
                 cur0 += ch
         pieces0.append(cur0)
         inputs.append((s0, expected(pieces0, {"verdict": "fallback", "langAt": 1, "countryAt": 3}), "format string"))
+    # every two-byte language part over an alphabet that surrounds a-z and A-Z (a lookup that indexes by character arithmetic
+    # must not let a byte outside the range carry into a neighbouring slot); thorough: all 255 x 255
+    edge = [chr(c) for c in list(range(ord("a"), ord("z") + 1)) + list(range(ord("A"), ord("Z") + 1))] + list("@[\\]^`{|}~0159 -/:") + ["\x01", "\x7f", "\x80", "\xe9", "\xff"]
+    two = [a + b for a in edge for b in edge] if tier == "quick" else [chr(a) + chr(b) for a in range(1, 256) for b in range(1, 256)]
+    for tb in two:
+        if "_" in tb or "." in tb:
+            continue
+        st2 = cases[("LangCode" if tb in names_of else "Unknown", "_", "CountryCode")]
+        inputs.append((tb + "_GB", expected([tb, "_", "GB"], st2), "two-byte language part"))
     # random strings: classified by their first four pieces
     nrand = {"quick": 1500, "thorough": 300000}[tier]
     alphabet = ["_", ".", "en", "GB", "ca", "English", "United Kingdom", "x", "Z", " ", "\xe9", "\x01", "\xff", "a" * 40, "UTF-8"]
@@ -197,6 +207,26 @@ def check(pid, tier, seed):
         lines.append("X g%d" % (i // per))
         lines += ["S s=%s" % hx(s) for s, _, _ in grp]
         lines.append("E")
+    # the answers the harness obtained BEFORE main() (a constructor with the highest initialisation priority; same list there)
+    pre_grp = []
+    for s0 in PRE_MAIN:
+        pieces0, cur0 = [], ""
+        for ch in s0:
+            if ch in "_.":
+                pieces0 += [cur0, ch]
+                cur0 = ""
+            else:
+                cur0 += ch
+        pieces0.append(cur0)
+        ab = tuple(p if p in ("_", ".") else ("Empty" if p == "" else "LangCode" if (k == 0 and p in names_of) else "LangName" if (k == 0 and p in lang_code_of_name) else
+                   "CountryCode" if (k == 2 and p in country_by_code) else "CountryName" if (k == 2 and p in country_by_name) else "Unknown") for k, p in enumerate(pieces0))
+        ab = ab if ab != ("Empty",) else ()
+        pre_grp.append((s0, expected(pieces0, cases[ab[:4]]), "called during static initialisation"))
+    groups.append(pre_grp)
+    lines.append("X g%d pre=1" % (len(groups) - 1))
+    lines += ["S s=%s" % hx(s) for s, _, _ in pre_grp]
+    lines.append("E")
+    inputs = inputs + pre_grp
     res = common.run_harness(exe, "\n".join(lines) + "\n")
     nonfb = 0
     distinct = set()
